@@ -16,7 +16,9 @@ _run_manager_from_cli_worker (design run stubbed) on the same configurations; (2
 the real code with oracles that share nothing with it: jsonschema called directly per section,
 byte comparison of write -> load -> write, state comparison, the written file / the writing manager /
 the reloaded manager against the harness's own record of every setter argument (`written-vs-api-config`),
-and the design actually run on both sides for a few configurations.
+the design actually run on both sides for a few configurations, and call histories
+(write; find_design — succeeding, continuing unmet, raising; write again on the same manager: same file,
+same configuration, caller's argument lists untouched).
 """
 from __future__ import annotations
 
@@ -130,7 +132,8 @@ def run(ctx: core.Ctx):
     for g in cl.GEOMS:
         for pi, p in enumerate(cl.PIPES):
             cases.append(cl.gen_config(rng, geom=g, pipe=p, fluid=cl.FLUIDS[k % 5], cap=bool(k & 1), cont=bool(k & 2),
-                                       flow=["BOREHOLE", "SYSTEM"][(pi + k // 4) % 2], rotations=boundary_rot.get(g, [None] * 4)[pi]))
+                                       flow=["BOREHOLE", "SYSTEM"][(pi + k // 4) % 2], rotations=boundary_rot.get(g, [None] * 4)[pi],
+                                       polyshape=pi))
             k += 1
     for i in range(n_random):
         loads = None
@@ -147,6 +150,9 @@ def run(ctx: core.Ctx):
         t = time.time()
         _run_designs(ctx, cases, tmp)
         ctx.extra["design_runs_s"] = round(time.time() - t, 1)
+        t = time.time()
+        _run_history(ctx, tmp)
+        ctx.extra["history_s"] = round(time.time() - t, 1)
     finally:
         shutil.rmtree(tmp, ignore_errors=True)
     ctx.programs = 4
@@ -174,6 +180,11 @@ def _case_worker(job):
     wd = Path(workdir)
     res = {"idx": idx}
     r = cl.try_build(calls)
+    # the caller's own argument objects (polygon lists, load list) after the setters and set_design
+    after = json.loads(json.dumps(cl.calls_jsonable(calls)))
+    before = json.loads(json.dumps(calls_j))
+    if after != before:
+        res["caller_args_changed"] = cl.first_diff(cl.exact(before), cl.exact(after))
     if r[0] != "ok":
         res["rejected"] = list(r[1:])
         return res
@@ -224,6 +235,10 @@ def _run_cases(ctx, cases, tmp):
         ctx.count(f"geom-x-flow:{str(desc.get('geom')).replace('_NORATIO', '')}:{flow}")
         ctx.count(f"cap:{desc.get('cap')}")
         ctx.count(f"continue:{desc.get('cont')}")
+        if "caller_args_changed" in res:
+            ctx.finding(f"caller-arguments-changed:{desc.get('geom')}:{res['caller_args_changed'].split(':')[0]}",
+                        f"the API calls changed the caller's own argument objects ({desc.get('geom')}): {res['caller_args_changed']} (before vs after the setters and set_design)",
+                        {"calls": cl.calls_jsonable(calls), "desc": desc})
         if "rejected" in res:
             ctx.count(f"api-rejected:{res['rejected'][0]}:{res['rejected'][1]}")
             ctx.case(hash(sig), False)
@@ -338,6 +353,130 @@ def _run_cases(ctx, cases, tmp):
             ctx.finding(f"rewrite-differs:{tag}:{(d or 'bytes').split(':')[0]}", f"write -> load -> write changed the file: {d or 'same JSON value, different bytes'}", replay)
             continue
         ctx.count("roundtrip_ok")
+
+
+def history_configs(tier):
+    """Cheap 12-month configurations for the call history  set…; set_design; write; find_design; write :
+    (label, calls, expected outcome) with max_boreholes and continue_if_design_unmet both given.  `fails`: loads far
+    too large for the lot and the continue flag false, so the search raises; `continues`: the same with the flag true;
+    `succeeds`: feasible loads."""
+    atl = ghelib.atlanta_loads()
+    sq = [[0.0, 0.0], [40.0, 0.0], [40.0, 40.0], [0.0, 40.0]]
+    hole = [[15.0, 15.0], [20.0, 15.0], [20.0, 20.0], [15.0, 20.0]]
+    geoms = {
+        "NEARSQUARE": ("set_geometry_constraints_near_square", {"b": 5.0, "length": 40.0}),
+        "RECTANGLE": ("set_geometry_constraints_rectangle", {"length": 40.0, "width": 30.0, "b_min": 4.0, "b_max": 8.0}),
+        "BIRECTANGLE": ("set_geometry_constraints_bi_rectangle", {"length": 40.0, "width": 30.0, "b_min": 4.0, "b_max_x": 8.0, "b_max_y": 9.0}),
+        "BIZONEDRECTANGLE": ("set_geometry_constraints_bi_zoned_rectangle", {"length": 40.0, "width": 30.0, "b_min": 4.0, "b_max_x": 8.0, "b_max_y": 9.0}),
+        # closed rings (first vertex repeated), property boundary nested, two no-go zones
+        "BIRECTANGLECONSTRAINED": ("set_geometry_constraints_bi_rectangle_constrained",
+                                   {"b_min": 4.0, "b_max_x": 8.0, "b_max_y": 9.0, "property_boundary": [sq + [sq[0]]],
+                                    "no_go_boundaries": [hole + [hole[0]], [[30.0, 30.0], [35.0, 30.0], [35.0, 35.0], [30.0, 30.0]]]}),
+        "ROWWISE": ("set_geometry_constraints_rowwise", {"perimeter_spacing_ratio": 0.8, "max_spacing": 8.0, "min_spacing": 5.0, "spacing_step": 0.5,
+                                                       "max_rotation": 0.0, "min_rotation": -90.0, "rotate_step": 45.0,
+                                                       "property_boundary": [[5.0, 5.0], [47.0, 7.0], [43.0, 41.0], [6.0, 38.0]], "no_go_boundaries": [hole]}),
+    }
+    quick = [("BIRECTANGLE", "fails"), ("BIRECTANGLE", "succeeds"), ("BIZONEDRECTANGLE", "fails"), ("BIRECTANGLECONSTRAINED", "fails"),
+             ("BIRECTANGLECONSTRAINED", "continues"), ("NEARSQUARE", "succeeds"), ("RECTANGLE", "continues")]
+    plan = quick if tier == "quick" else [(g, o) for g in geoms for o in ("fails", "continues", "succeeds")]
+    out = []
+    for g, outcome in plan:
+        scale = 0.25 if outcome == "succeeds" else 60.0
+        calls = [
+            ("set_fluid", {"fluid_name": "Water", "concentration_percent": 0.0, "temperature": 20.0}),
+            ("set_grout", {"conductivity": 1.0, "rho_cp": 3901000.0}),
+            ("set_soil", {"conductivity": 2.0, "rho_cp": 2343493.0, "undisturbed_temp": 18.3}),
+            ("set_single_u_tube_pipe", {"inner_diameter": 0.03404, "outer_diameter": 0.04216, "shank_spacing": 0.01856, "roughness": 1.0e-6,
+                                        "conductivity": 0.4, "rho_cp": 1542000.0}),
+            ("set_borehole", {"height": 96.0, "buried_depth": 2.0, "diameter": 0.14}),
+            ("set_simulation_parameters", {"num_months": 12, "max_eft": 35.0, "min_eft": 5.0, "max_height": 135.0, "min_height": 60.0,
+                                           # the cap must not cut the nested searches' outer pass short when a design is wanted
+                                           "max_boreholes": 400 if outcome == "succeeds" else 40, "continue_if_design_unmet": outcome == "continues"}),
+            ("set_ground_loads_from_hourly_list", {"hourly_ground_loads": [x * scale for x in atl]}),
+            (geoms[g][0], json.loads(json.dumps(geoms[g][1]))),
+            ("set_design", {"flow_rate": 0.5, "flow_type_str": "BOREHOLE"}),
+        ]
+        out.append((f"{g}:{outcome}", calls, outcome))
+    return out
+
+
+def _history_worker(job):
+    """set…; set_design; write A; find_design (may raise); write B on the same manager.  Plain data back."""
+    import warnings
+
+    warnings.filterwarnings("ignore")
+    label, calls_j, workdir = job
+    calls = cl.calls_from_jsonable(calls_j)
+    wd = Path(workdir)
+    res = {"label": label}
+    r = cl.try_build(calls)
+    if r[0] != "ok":
+        res["rejected"] = list(r[1:])
+        return res
+    m = r[1]
+    tag = label.replace(":", "_")
+    pa, pb = wd / f"hist_{tag}_before.json", wd / f"hist_{tag}_after.json"
+    try:
+        with cl.silent():
+            m.write_input_file(pa)
+        res["before"] = pa.read_text()
+        res["state_before"] = cl.dump_state(m)
+        try:
+            with cl.silent():
+                m.find_design()
+            res["find_design"] = "returned"
+            res["result"] = [len(m._search.selected_coordinates), float(m._search.ghe.bhe.b.H)]
+        except Exception as e:  # noqa: BLE001
+            res["find_design"] = f"raised {type(e).__name__}: {e}"[:120]
+        with cl.silent():
+            m.write_input_file(pb)
+        res["after"] = pb.read_text()
+        res["state_after"] = cl.dump_state(m)
+    except Exception as e:  # noqa: BLE001
+        res["error"] = f"{type(e).__name__}: {e}"[:200]
+    after = json.loads(json.dumps(cl.calls_jsonable(calls)))
+    before = json.loads(json.dumps(calls_j))
+    if after != before:
+        res["caller_args_changed"] = cl.first_diff(cl.exact(before), cl.exact(after))
+    return res
+
+
+def _run_history(ctx, tmp):
+    """A run must not change the configuration it was given: the input file written before find_design and the one
+    written after it (whether it found a design, returned the best unmet one, or raised) are the same file and say
+    what the setters were handed."""
+    cfgs = history_configs(ctx.tier)
+    res = core.pool_map(_history_worker, [(label, cl.calls_jsonable(calls), str(tmp)) for label, calls, _ in cfgs], workers=min(16, len(cfgs)))
+    for (label, calls, outcome), r in zip(cfgs, res):
+        replay = {"history": "setters; set_design; write_input_file (A); find_design; write_input_file (B)", "label": label,
+                  "find_design": r.get("find_design"), "calls_without_loads": [c for c in cl.calls_jsonable(calls) if c[0] != "set_ground_loads_from_hourly_list"],
+                  "loads": "Atlanta office hourly loads x " + ("0.25" if outcome == "succeeds" else "60")}
+        ctx.case(("history", label), True, {"history": label, "find_design": r.get("find_design"), "result": r.get("result")} if outcome == "fails" else None)
+        if "rejected" in r or "error" in r:
+            ctx.count(f"history-not-run:{label}")
+            ctx.infra(f"history configuration {label} did not run: {r.get('rejected') or r.get('error')}")
+            continue
+        fd = r["find_design"]
+        ctx.count(f"history:{label.split(':')[0]}:{'raised' if fd.startswith('raised') else 'returned'}")
+        if (outcome == "fails") != fd.startswith("raised"):
+            ctx.count(f"history-unexpected-outcome:{label}")          # the configuration did not behave as planned; still checked
+        want = cl.exact(cl.api_config_file(calls))
+        for which in ("before", "after"):
+            doc = json.loads(r[which])
+            d = cl.first_diff(want, {k: v for k, v in cl.exact(doc).items() if k != "version"})
+            if d:
+                ctx.finding(f"history:written-vs-api-config:{label}:{which}-find_design:{d.split(':')[0]}",
+                            f"{label}: the input file written {which} find_design ({fd}) does not say what the setters were given: {d}", replay)
+        if r["before"] != r["after"]:
+            d = cl.first_diff(cl.exact(json.loads(r["before"])), cl.exact(json.loads(r["after"])))
+            ctx.finding(f"history:file-changed-by-find_design:{label}:{(d or 'bytes').split(':')[0]}",
+                        f"{label}: write_input_file before and after find_design ({fd}) on the same manager differ: {d or 'same value, different bytes'} (before vs after)", replay)
+        d = cl.first_diff_subset(cl.exact(cl.api_config_state(calls)), cl.exact(r["state_after"]))
+        if d:
+            ctx.finding(f"history:manager-vs-api-config:{label}:{d.split(':')[0]}", f"{label}: after find_design ({fd}) the manager no longer holds the configuration it was given: {d}", replay)
+        if "caller_args_changed" in r:
+            ctx.finding(f"history:caller-arguments-changed:{label}:{r['caller_args_changed'].split(':')[0]}",
+                        f"{label}: the caller's own argument objects were changed by the API calls / the run: {r['caller_args_changed']}", replay)
 
 
 def _run_designs(ctx, cases, tmp):
